@@ -193,10 +193,13 @@ Definition zset_range_by_score (min max : score) (offset limit : Z) (desc : bool
         | [] => []
         | n :: _ => if score_ltb max (fst n) then [] else s
         end in
-    let seq' := skipn (Z.to_nat (Z.min offset (Z.of_nat (length seq)))) seq in
-    let visited := take_scored min max limit 0 seq' in
-    filter (fun it => negb ((Z.testbit mode 0 && score_eqb (fst it) min)
-                            || (Z.testbit mode 1 && score_eqb (fst it) max))) visited.
+    (* forEach(min, max, 0, -1): every member from the start node while the score stays inside
+       [min, max]; the consumer drops the open ends, then skips offset members, then keeps limit *)
+    let visited := take_scored min max (-1) 0 seq in
+    let inside := filter (fun it => negb ((Z.testbit mode 0 && score_eqb (fst it) min)
+                                          || (Z.testbit mode 1 && score_eqb (fst it) max))) visited in
+    let after := skipn (Z.to_nat (Z.min offset (Z.of_nat (length inside)))) inside in
+    if limit <? 0 then after else firstn (Z.to_nat (Z.min limit (Z.of_nat (length after)))) after.
 
 (* skiplist.removeRange(min, max, 0, mode) *)
 Definition zset_remrange_score (min max : score) (mode : Z) (z : zsetv) : Z * zsetv :=
